@@ -101,6 +101,14 @@ REG["C09"] = dict(
     outside=["row-group level planning: overlappingRowGroups, range refinement (merge_refine.go), rowGroupRangeOfSortedColumns (DESIGN K5/K6 not built yet)", "merges over real files and WriteRowGroup(merged)", "multi-column and nullable keys, descending order"],
 )
 
+REG["C08"] = dict(
+    harnesses=[H(P, "VerifH_C08_filePagesSeekRead", max_paths={"quick": 400000, "thorough": 4000000}, max_seconds={"quick": 300, "thorough": 2400}), H(P, "VerifH_C08_mergedRowsSeek")],
+    explanation="(K1) the seek/read state machine of FilePages (SeekToRow, ReadPage, serveLastPage/lastPage caching, skip accounting, buffered-stream repositioning) is executed on a real byte stream through the real io.SectionReader, bufio.Reader and readPage; only the Thrift page-header decode and the data-page body decoder are replaced by stubs (the header stub yields the header of the page that starts at the current stream position and flags a misaligned stream). Every history of seeks and reads in the bound is explored, with and without an offset index: the rows returned after the last SeekToRow(k) are rows k, k+1, ... and the stream stays aligned on page boundaries. Counterexamples are replayed literally through the public API on a real file whose pages have the model's row counts. (K5) SeekToRow on the rows of a merged row group followed by reads of any batch size returns the rows from the target on, rejects backward seeks and terminates.",
+    bounds={"quick": "K1: 1..3 pages of 1..2 rows, histories of 4 operations (seek to any row incl. the end, or read), offset index present/absent; K5: <=6 rows, batch 1..4, 2 operations", "thorough": "K1: pages of 1..3 rows, 5 operations; K5: 3 operations"},
+    outside=["asynchronous read mode (C15)", "encrypted ordinals (C18)", "v1 pages that continue a row from the previous page, dictionary pages in the stream", "page slicing (K2), rowGroupRows and range views (K3, K4) not built yet"],
+    assumptions=["K1: stubs for thrift.Decoder.Decode (header of the page at the current stream position) and FilePages.readDataPageV2 (model page identified by the body bytes)"],
+)
+
 LEVEL_TEXT = "bounded symbolic execution of the real functions (go/ssa of the current /repo tree) with an SMT solver deciding every assertion for all inputs inside the stated bounds; counterexamples are replayed against the natively compiled code before being reported"
 
 def main():
